@@ -115,6 +115,7 @@ type offerOpt struct {
 	keepCommit  bool // do not recompute the commitment after mutate
 	mutate      func(b *types.Block, bs *consensus.V1BlockSupplement)
 	tsOverride  *time.Time
+	onApply     func(ns consensus.State) // called with the state an accepted block leads to
 	rowVerdict  bool // leave an accepted block to the row's own expect() (a recorded finding is identified by its row)
 }
 
@@ -153,7 +154,10 @@ func (sc *scratch) offer(v1 []types.Transaction, v2 []types.V2Transaction, opt o
 	if verr == nil {
 		// any block that passes validation can be applied and reverted
 		if p := guard(func() {
-			consensus.ApplyBlock(sc.s, b, bs, w.genesis.Timestamp)
+			ns, _ := consensus.ApplyBlock(sc.s, b, bs, w.genesis.Timestamp)
+			if opt.onApply != nil {
+				opt.onApply(ns)
+			}
 		}); p != "" {
 			w.violate("C10", "apply-panic", fmt.Sprintf("ApplyBlock panicked on a block that passed ValidateBlock (height %d): %s", sc.child(), p))
 		} else if p := guard(func() { consensus.RevertBlock(sc.s, b, bs) }); p != "" {
